@@ -11,6 +11,7 @@ from ..gen import selectors as G
 ID = "C10"
 RULE = ("stylesheets of 2-5 rules over a per-case alphabet (types, classes, ids, attribute, pseudo-class, pseudo-element, "
         "placeholder; combinators; <= 3 compounds; 1-2 complex selectors per list) with 1-3 @extend directives (simple, "
+        "compound and complex extenders; one case in five is a transitive chain of 3-5 single-compound extenders with the target rules placed anywhere; "
         "compound and complex extenders; chains, cycles, self extension, targets inside :not()/:is()), compiled in source "
         "order and in reversed order; plus the @media / !optional / missing-target families. Judged: soundness, "
         "completeness for single-compound extenders, first law, second law (specificity), no placeholder in output, "
@@ -54,6 +55,28 @@ def gen_sheet(rng):
             r, t = rng.choice(cands)
             r["extends"].append((t, False))
     return al, rules
+
+
+def gen_chain(rng):
+    """transitive chains of single-compound extenders (x1 extends x0, x2 extends x1, ...) with the rules that mention
+    the targets placed anywhere, also after all @extends: completeness is judged on these"""
+    al = G.alphabet(rng, rng.range(3, 4))
+    names = [x for x in al if not x.startswith("::")]
+    rng.shuffle(names)
+    n = rng.range(3, min(5, len(names))) if len(names) >= 3 else len(names)
+    chain = names[:n]
+    rules = []
+    for i in range(1, len(chain)):
+        extra = rng.choice(names)
+        own = chain[i] if (rng.chance(0.8) or extra[0].isalpha() or extra in chain) else chain[i] + extra
+        rules.append({"sel": own, "extends": [(chain[i - 1], False)]})
+    if rng.chance(0.3):
+        rng.shuffle(rules)
+    for _ in range(rng.range(1, 2)):
+        t = rng.choice(chain[:2])
+        s = rng.choice([t, t + " " + rng.choice(names), rng.choice(names) + " > " + t, t + ", " + rng.choice(names)])
+        rules.insert(rng.below(len(rules) + 1) if rng.chance(0.5) else len(rules), {"sel": s, "extends": []})
+    return al, rules[:6]
 
 
 def sheet_text(rules, order=None):
@@ -282,7 +305,7 @@ def run(sh):
         run_families(sh)
     n = 0
     while not sh.expired():
-        cases = [gen_sheet(rng) for _ in range(8)]
+        cases = [gen_chain(rng) if rng.chance(0.2) else gen_sheet(rng) for _ in range(8)]
         specs = []
         for al, rules in cases:
             specs.append({"text": sheet_text(rules)})
@@ -296,8 +319,45 @@ def run(sh):
                 n += 1
 
 
+def rules_of_text(text):
+    """inverse of sheet_text (the replay file stores the stylesheet only)"""
+    rules = {}
+    for line in text.split("\n"):
+        m = re.match(r"^(.*?) \{ r: (\d+);(.*) \}$", line)
+        if not m:
+            return None
+        rules[int(m.group(2))] = {"sel": m.group(1), "extends": [(t, False) for t in re.findall(r"@extend (.*?) !optional;", m.group(3))]}
+    return [rules[i] for i in sorted(rules)] if sorted(rules) == list(range(len(rules))) else None
+
+
 def replay(sh, payload):
     t = payload["replay"]["text"]
     print(t)
-    print(sh.w.compile({"text": t}))
-    return "see output"
+    rules = rules_of_text(t)
+    before = len(sh.violations) + sum(sh.known.values())
+    if rules is None or sheet_text(rules) != t:
+        # one of the fixed families
+        for ft, exp in FAMILIES:
+            if ft == t:
+                saved = FAMILIES[:]
+                FAMILIES[:] = [(ft, exp)]
+                try:
+                    run_families(sh)
+                finally:
+                    FAMILIES[:] = saved
+        r = sh.w.compile({"text": t})
+        print(r.get("ok") or r)
+    else:
+        w = sh.worker("R", timeout=3, mem_gb=3)
+        r1, r2 = w.batch([{"text": t}, {"text": sheet_text(rules, list(range(len(rules)))[::-1])}], timeout=10)
+        print("source order:   ", r1.get("ok") or r1)
+        print("reversed order: ", r2.get("ok") or r2)
+        judge_sheet(sh, None, rules, r1, t, sh.params.get("nodes", 3), r2)
+    for v in sh.violations.values():
+        print(v["sig"], v["msg"][:300])
+    for k in sh.known:
+        print("known finding:", k)
+    if sh.inconclusive:
+        print("inconclusive:", dict(sh.inconclusive))
+        return "inconclusive"
+    return "violated" if len(sh.violations) + sum(sh.known.values()) > before else "held"
